@@ -6,6 +6,7 @@
 #include <gmlc/libguarded/cow_guarded.hpp>
 
 #include <chrono>
+#include <initializer_list>
 #include <set>
 
 using wl::Cell;
@@ -63,9 +64,24 @@ struct CV {
     }
 };
 
-template<class M>
+/// an element type with an initializer_list constructor whose element type is
+/// constructible from the type itself (think of JSON-like values or
+/// std::vector<std::any>): copy-initialising it with braces would not copy
+struct CVL: CV {
+    struct Item {
+        Item(const CVL&) {}
+    };
+    CVL() = default;
+    CVL(const CVL&) = default;
+    CVL(std::initializer_list<Item>)
+    {
+        for (int i = 0; i < Cell::MAXW; i++) c.w[i] = -4242;  // "a list holding the old value"
+    }
+};
+
+template<class M, class CVT = CV>
 struct WL {
-    using COW = gmlc::libguarded::cow_guarded<CV, M>;
+    using COW = gmlc::libguarded::cow_guarded<CVT, M>;
     COW* cow;
 
     typename COW::shared_handle snap(int form)
@@ -367,8 +383,14 @@ void run()
 {
     gsim::check_races(gsim::param_int("races", 0) != 0);
     const char* mode = gsim::param("mode", "std");
-    if (gsim::knob("mutex", 0, 1) == 0) WL<std::mutex>().run(mode);
-    else WL<std::timed_mutex>().run(mode);
+    int elem = gsim::knob("elem", 0, 3);  // 3: the initializer_list element type
+    if (gsim::knob("mutex", 0, 1) == 0) {
+        if (elem == 3) WL<std::mutex, CVL>().run(mode);
+        else WL<std::mutex>().run(mode);
+    } else {
+        if (elem == 3) WL<std::timed_mutex, CVL>().run(mode);
+        else WL<std::timed_mutex>().run(mode);
+    }
 }
 }  // namespace
 
